@@ -22,5 +22,6 @@ INVARIANT LawUnmatched
 INVARIANT LawFineWellFormed
 INVARIANT LawFineOrders
 INVARIANT LawConf
+INVARIANT LawPerm
 INVARIANT LawComputed
 CHECK_DEADLOCK FALSE
